@@ -83,6 +83,13 @@ func dispHistCfgs(prop, tier string) []*histCfg {
 		&histCfg{Name: prop + "-hist/plain", Spec: dispSpec(false), Probes: dispProbes, MaxScopes: 3, Depth: depth, CtxKinds: []string{"cancel"}, Final: dispFinal, Oracle: dispOracle(prop)},
 		&histCfg{Name: prop + "-hist/init", Spec: dispSpec(true), Probes: dispProbes[:2], MaxScopes: 3, Depth: depth, CtxKinds: []string{""}, Final: dispFinal, Oracle: dispOracle(prop)},
 	)
+	// scope churn: many children under one parent, created and closed in every order
+	churnDepth := 7
+	if tier == "thorough" {
+		churnDepth = 9
+	}
+	out = append(out, &histCfg{Name: prop + "-hist/churn", Spec: dispSpec(false), Depth: churnDepth, Final: dispFinal, Oracle: dispOracle(prop),
+		AutoGet: &Op{Kind: "get", T: "D2"}, AlphaFn: churnAlphabet})
 	if prop == "C10" {
 		// fault positions: every constructor, invocation 1..3, error / panic / nil
 		fd := depth - 2
@@ -509,4 +516,39 @@ func c12Jobs(tier string) []mc.Job {
 		}})
 	}
 	return jobs
+}
+
+// churnAlphabet: first create s1 under the provider, then create children of
+// s1 (explicit contexts) and close open children in any order; closing s1 ends
+// the history.
+func churnAlphabet(h []Op) []Op {
+	if len(h) == 0 {
+		return []Op{{Kind: "scope", Bind: "s1"}}
+	}
+	open := map[string]bool{}
+	var order []string
+	n := 0
+	for _, o := range h {
+		switch o.Kind {
+		case "scope":
+			open[o.Bind] = true
+			order = append(order, o.Bind)
+			n++
+		case "close":
+			if o.Scope == "s1" {
+				return nil
+			}
+			delete(open, o.Scope)
+		}
+	}
+	var out []Op
+	if n < 7 {
+		out = append(out, Op{Kind: "scope", Scope: "s1", Bind: fmt.Sprintf("s%d", n+1)})
+	}
+	for _, name := range order {
+		if open[name] {
+			out = append(out, Op{Kind: "close", Scope: name})
+		}
+	}
+	return out
 }
